@@ -66,7 +66,9 @@ func (p QueryProof) Verify(key []byte, expectedRootHash hashing.Digest) (valid b
 	}
 	recomputed, err := ops.Pop().Interpret(ops, ctx)
 	if err != nil {
-		panic(err)
+		// the audit path comes from an untrusted server: a path that does
+		// not fit the key is a failed verification, not a crash
+		return false
 	}
 
 	return bytes.Equal(key, p.Key) && bytes.Equal(recomputed, expectedRootHash)
